@@ -1,4 +1,5 @@
 import CfbVerif.Phys.Content
+import CfbVerif.Phys.OpenBack
 /-!
 # The mini-chain layer stores and returns bytes
 
@@ -520,5 +521,36 @@ theorem miniZero_blk {p : P} (ss : SS p) {root : List Nat} (hroot : chainIds p p
     · have h1 := miniBlk_length ss' hp' (m := m2) (by rw [hper]; exact hm2)
       have h2 := miniBlk_length ss hp (m := m2) hm2
       rw [List.getElem?_eq_none (by omega), List.getElem?_eq_none (by omega)]
+
+/-! ## the range premise, from what the lock-step asserts on every state -/
+
+/-- the mini stream's chain covers the mini stream's length (the root entry's length): evaluated by the
+phys driver on every state of every replayed history beside `miniFitB` -/
+def rootCoverB (p : P) : Bool := decide (p.rootLen ≤ (chainOrEmpty p p.rootStart).length * p.S)
+
+/-- **every cell of the in-memory MiniFAT names a mini sector that lies inside the mini stream's chain**:
+from `MiniFit.root` (the MiniFAT is no longer than the mini stream: `C02_minifit_reachable`) and
+`rootCoverB` (the mini stream's chain covers its length).  The ids of a mini chain are cells of the
+MiniFAT, so this is the range premise of the mini-chain content theorems. -/
+theorem mini_in_root {p : P} (fit : MiniFit p) (hc : rootCoverB p = true) {root : List Nat}
+    (hroot : chainIds p p.rootStart = .ok root) {m : Nat} (hm : m < p.miniFat.size) : m / p.per < root.length := by
+  have hcov : p.rootLen ≤ root.length * p.S := by
+    have := of_decide_eq_true hc
+    unfold chainOrEmpty at this
+    rw [hroot] at this
+    exact this
+  have hr : p.miniFat.size ≤ p.rootLen / 64 := fit.root
+  have h1 : (m + 1) * 64 ≤ p.rootLen := by
+    have : (m + 1) ≤ p.rootLen / 64 := by omega
+    calc (m + 1) * 64 ≤ p.rootLen / 64 * 64 := Nat.mul_le_mul_right _ this
+      _ ≤ p.rootLen := Nat.div_mul_le_self _ _
+  have hS := S_eq_per p
+  have hper := per_pos p
+  -- m * 64 + 64 ≤ root.length * per * 64, so m < root.length * per
+  have h2 : m < root.length * p.per := by
+    have e : root.length * p.S = (root.length * p.per) * 64 := by rw [hS]; ac_rfl
+    rw [e] at hcov
+    omega
+  exact (Nat.div_lt_iff_lt_mul hper).mpr h2
 
 end CfbVerif.Phys
